@@ -13,6 +13,7 @@ import (
 	"os"
 	"path"
 	"path/filepath"
+	"runtime"
 	"sort"
 	"strings"
 	"sync"
@@ -38,6 +39,11 @@ type Case struct {
 	Sched        []string   `json:"sched,omitempty"`     // layer history in the shared bolt DB: open:x close:x (x in m a b c)
 	BadNeighbour bool       `json:"badneighbour,omitempty"`
 	NullEntries  bool       `json:"nullentries,omitempty"` // keep the builder's "entries":null of an empty tar
+	// Coalesce: the bolt DB runs with MaxBatchSize 2 and a long MaxBatchDelay, and whenever a layer is parked inside one of
+	// its db.Batch call sites (NewReader: root node, metadata, streams; Close) a FAILING Batch call of a neighbour is queued
+	// behind it ("doubleclose": second Close of an already closed layer; "raw": a transaction function that returns an error),
+	// so bolt rolls the batch back and re-runs the healthy function.
+	Coalesce string `json:"coalesce,omitempty"`
 }
 
 type Result struct {
@@ -48,6 +54,7 @@ type Result struct {
 	early         *Node // db GetAttr(root) immediately after NewReader
 	diffs         []Diff
 	leaked        int
+	injected      map[string]int // failing Batch calls queued behind a parked call, per call site
 	neighbourNull bool
 	problems      []string // failures of the layer-independence / lifecycle clauses and internal inconsistencies
 }
@@ -173,6 +180,39 @@ func exec(c *Case) *Result {
 	readers := map[string]metadata.Reader{}
 	first := map[string]*View{}
 	var mu sync.Mutex
+	// guard runs an action that may call db.Batch; in coalesce mode failing Batch calls are injected while it is parked
+	guard := func(action func()) { action() }
+	if c.Coalesce != "" {
+		res.injected = map[string]int{}
+		var closedX metadata.Reader
+		if x, err := db.NewReader(bdb, sectionOf(wrapTOC(blob0, tocOff, tocJSON(nil, 0, "")))); err == nil {
+			if _, err := x.GetOffset(x.RootID()); err == nil && x.Close() == nil {
+				closedX = x
+			}
+		}
+		if closedX == nil {
+			res.problems = append(res.problems, "coalesce: could not open and close the auxiliary layer")
+		}
+		bdb.MaxBatchDelay = 500 * time.Millisecond
+		bdb.MaxBatchSize = 2
+		inject := func() {
+			if c.Coalesce == "doubleclose" && closedX != nil {
+				if closedX.Close() == nil {
+					res.problems = append(res.problems, "second Close of a closed layer reports success")
+				}
+				return
+			}
+			bdb.Batch(func(*bolt.Tx) error { return fmt.Errorf("injected failure") })
+		}
+		guard = func(action func()) {
+			done := make(chan struct{})
+			go func() { defer close(done); action() }()
+			if !injectWhileParked(done, inject, res.injected) {
+				res.problems = append(res.problems, "coalesce: a db call did not return within 20s")
+				<-done
+			}
+		}
+	}
 	openAll := func(names []string) {
 		var wg sync.WaitGroup
 		for _, nm := range names {
@@ -237,15 +277,17 @@ func exec(c *Case) *Result {
 			i++
 		}
 		if len(opens) > 0 {
-			openAll(opens)
+			guard(func() { openAll(opens) })
 			recheck("open " + strings.Join(opens, ","))
 		}
 		if i < len(sched) && strings.HasPrefix(sched[i], "close:") {
 			nm := sched[i][6:]
 			if r, ok := readers[nm]; ok {
-				if err := r.Close(); err != nil {
-					res.problems = append(res.problems, "Close of layer "+nm+" failed")
-				}
+				guard(func() {
+					if err := r.Close(); err != nil {
+						res.problems = append(res.problems, "Close of layer "+nm+" failed")
+					}
+				})
 				delete(readers, nm)
 				if _, err := r.GetAttr(r.RootID()); err == nil && nm != "m" {
 					res.problems = append(res.problems, "closed layer "+nm+" still answers GetAttr(root)")
@@ -258,7 +300,7 @@ func exec(c *Case) *Result {
 		}
 	}
 	if first["m"] == nil {
-		openAll([]string{"m"})
+		guard(func() { openAll([]string{"m"}) })
 	}
 	res.db = first["m"]
 	// db Clone shows the same filesystem
@@ -289,9 +331,11 @@ func exec(c *Case) *Result {
 		}
 	}
 	for nm, r := range readers {
-		if err := r.Close(); err != nil {
-			res.problems = append(res.problems, "final Close of layer "+nm+" failed")
-		}
+		guard(func() {
+			if err := r.Close(); err != nil {
+				res.problems = append(res.problems, "final Close of layer "+nm+" failed")
+			}
+		})
 	}
 	// nothing may be left behind in the database
 	bdb.View(func(tx *bolt.Tx) error {
@@ -474,4 +518,47 @@ func main() {
 		emit(gen(r.Fork(), ctx.Tier))
 	}
 	ctx.Finish()
+}
+
+// parkedInBatch reports how many goroutines wait inside (*bolt.DB).Batch for their batch to run, and the db call site of one.
+func parkedInBatch() (n int, site string) {
+	buf := make([]byte, 1<<20)
+	buf = buf[:runtime.Stack(buf, true)]
+	for _, g := range strings.Split(string(buf), "\n\n") {
+		if !strings.Contains(g, "bbolt.(*DB).Batch(") || !strings.Contains(g[:strings.Index(g+"\n", "\n")], "chan receive") {
+			continue
+		}
+		n++
+		switch {
+		case strings.Contains(g, ").initRootNode("):
+			site = "root"
+		case strings.Contains(g, ").initNodes("):
+			site = "nodes"
+		case strings.Contains(g, ").Close("):
+			site = "close"
+		default:
+			site = "other"
+		}
+	}
+	return
+}
+
+// injectWhileParked polls (bounded) until done; whenever a goroutine is parked in Batch it queues a failing call behind it
+// (with MaxBatchSize 2 the batch then runs at once). No sleep is used as synchronisation: the poll only yields.
+func injectWhileParked(done <-chan struct{}, inject func(), count map[string]int) bool {
+	deadline := time.Now().Add(20 * time.Second)
+	for time.Now().Before(deadline) {
+		select {
+		case <-done:
+			return true
+		default:
+		}
+		if n, site := parkedInBatch(); n > 0 {
+			count[site]++
+			inject()
+		} else {
+			time.Sleep(50 * time.Microsecond)
+		}
+	}
+	return false
 }
